@@ -39,6 +39,8 @@ type (
 type evType struct {
 	sub    func(bus *eventbus.EventBus, fn func(Ev), so ...eventbus.SubscribeOption)
 	subCtx func(bus *eventbus.EventBus, fn func(context.Context, Ev), so ...eventbus.SubscribeOption)
+	// subReplay subscribes through SubscribeWithReplay (bus with a store)
+	subReplay func(bus *eventbus.EventBus, id string, fn func(Ev), so ...eventbus.SubscribeOption) error
 	pubCtx func(bus *eventbus.EventBus, ctx context.Context, e Ev, viaAny bool)
 	pub    func(bus *eventbus.EventBus, e Ev)
 	pubAny func(bus *eventbus.EventBus, e Ev) // through the static type any
@@ -54,6 +56,9 @@ func mkType[T ~struct {
 		},
 		subCtx: func(bus *eventbus.EventBus, fn func(context.Context, Ev), so ...eventbus.SubscribeOption) {
 			eventbus.SubscribeContext(bus, func(ctx context.Context, e T) { fn(ctx, Ev(e)) }, so...)
+		},
+		subReplay: func(bus *eventbus.EventBus, id string, fn func(Ev), so ...eventbus.SubscribeOption) error {
+			return eventbus.SubscribeWithReplay(context.Background(), bus, id, func(e T) { fn(Ev(e)) }, so...)
 		},
 		pubCtx: func(bus *eventbus.EventBus, ctx context.Context, e Ev, viaAny bool) {
 			if viaAny {
@@ -110,6 +115,11 @@ type H struct {
 	SleepMs int  `json:"sleep_ms"`       // fake duration of every invocation
 	Nest    int  `json:"nest,omitempty"` // number of further events it publishes (while depth < MaxDepth)
 	Gate    bool `json:"gate,omitempty"` // blocks on the harness gate instead of sleeping
+	// Replay (bus with a store, handler without context): subscribed through
+	// SubscribeWithReplay with the Async option.  The log is empty then, so
+	// it is a live asynchronous subscription that also records its position;
+	// Wait and Shutdown cover its invocations like any other.
+	Replay bool `json:"replay,omitempty"`
 }
 
 type Case struct {
@@ -284,6 +294,11 @@ func bubble(c *Case, o *vkit.Outcome) {
 			}
 			if h.Ctx {
 				et.subCtx(bus, func(ctx context.Context, e Ev) { body(hi, ctx, e) }, so...)
+			} else if h.Replay && !c.NoStore {
+				if err := et.subReplay(bus, fmt.Sprintf("sub-%d-%d", hi, ti), func(e Ev) { body(hi, nil, e) }, so...); err != nil {
+					o.Failf("", "SubscribeWithReplay on an empty log failed: %v", err)
+					return
+				}
 			} else {
 				et.sub(bus, func(e Ev) { body(hi, nil, e) }, so...)
 			}
